@@ -40,7 +40,7 @@ def _algebra(name, combine, requires_current=True):
 REG.contract(
     CUR + "__add__", params=dict(self=Ref("Current"), other=Ref("Current")), ret=Ref("Current"), fresh_ret=True,
     modifies=[("Current.coef", "FRESH"), ("Current.name", "FRESH"), "alloc"],
-    ensures=[C("C12.sum", _algebra("add", lambda old, k: coef(old.self, k) + coef(old.other, k)))])
+    ensures=[C("C12.sum", props=("C12", "C10"), fn=_algebra("add", lambda old, k: coef(old.self, k) + coef(old.other, k)))])
 REG.contract(
     CUR + "__sub__", params=dict(self=Ref("Current"), other=Ref("Current")), ret=Ref("Current"), fresh_ret=True,
     modifies=[("Current.coef", "FRESH"), ("Current.name", "FRESH"), "alloc"],
@@ -139,7 +139,7 @@ REG.contract(
     raises=[RaiseSpec("KeyError", _unknown_station, iff=True, unchanged=True)],
     modifies=[("ChargingNetwork." + f, lambda s: [s.self]) for f in INFO_FIELDS + ["constraint_matrix", "magnitudes", "constraint_index"]]
              + [("Current.name", lambda s: [s.current]), "warnings"],
-    ensures=[C("C12.add_constraint", _ac_post)],
+    ensures=[C("C12.add_constraint", _ac_post, props=("C12", "C10"))],   # the row is a function of the Current's coefficients, not of its listing order
     loops={0: LoopSpec(invariant=lambda s: [("listed_stations_registered", AllIdx(0, s._k, lambda i: s.self._EVSEs.has(s._iter[i]), name="ls"))]),
            1: LoopSpec(invariant=_ac_first_row_inv)},
 )
